@@ -382,24 +382,7 @@ func c12Diagnostics(c *Ctx, ns *numberScanner) {
 		return
 	}
 	// which phi is "allow": the one set true on the digit path
-	var allow, prevSep *ssa.Phi
-	for _, p := range boolPhis {
-		for i, e := range p.Edges {
-			pred := h.Preds[i]
-			_ = pred
-			if k, ok := e.(*ssa.Const); ok && k.Value != nil && constant.BoolVal(k.Value) {
-				// true on the edge from the digit arm?
-				if c.blockAfterCall(pred, c.fn("IsDigit")) {
-					allow = p
-				}
-			}
-		}
-	}
-	for _, p := range boolPhis {
-		if p != allow {
-			prevSep = p
-		}
-	}
+	allow, prevSep := c.separatorStates(ns, ch, boolPhis)
 	if allow == nil || prevSep == nil {
 		c.R.Undecided(rule, "separator-state", c.P.Pos(f.Pos()), "cannot tell the two separator states apart")
 		return
@@ -514,6 +497,54 @@ func c12Diagnostics(c *Ctx, ns *numberScanner) {
 	c.R.Floor(rule, 8)
 }
 
+// separatorStates tells the two boolean loop states of the fragment scanner apart: "a separator is allowed next" is the
+// one a digit sets to true, "the previous character was a separator" the one a digit clears. Decided first by the
+// shape (the constant true arrives over the true edge of the digit test), then by folding one iteration on a digit.
+func (c *Ctx) separatorStates(ns *numberScanner, ch ssa.Value, boolPhis []*ssa.Phi) (allow, prevSep *ssa.Phi) {
+	h := ns.FragLoop.Header
+	for _, p := range boolPhis {
+		for i, e := range p.Edges {
+			if k, ok := e.(*ssa.Const); ok && k.Value != nil && constant.BoolVal(k.Value) {
+				if c.blockAfterCall(h.Preds[i], c.fn("IsDigit")) {
+					allow = p
+				}
+			}
+		}
+	}
+	if allow == nil && len(boolPhis) == 2 {
+		r := c.foldWith(ns.Frag, 1, pinValue(ch, constant.MakeInt64('7')), pinLoopEntered(h))
+		next := func(p *ssa.Phi) (bool, bool) {
+			acc := LV{K: lTop}
+			for i, e := range p.Edges {
+				pred := h.Preds[i]
+				if !ns.FragLoop.Body[pred] || !r.Reach[pred] || !r.Edge[[2]int{pred.Index, h.Index}] {
+					continue
+				}
+				acc = meet(acc, r.Val(e))
+			}
+			if acc.K != lConst || acc.C.Kind() != constant.Bool {
+				return false, false
+			}
+			return constant.BoolVal(acc.C), true
+		}
+		a0, ok0 := next(boolPhis[0])
+		a1, ok1 := next(boolPhis[1])
+		if ok0 && ok1 && a0 != a1 {
+			if a0 {
+				allow = boolPhis[0]
+			} else {
+				allow = boolPhis[1]
+			}
+		}
+	}
+	for _, p := range boolPhis {
+		if p != allow && allow != nil {
+			prevSep = p
+		}
+	}
+	return allow, prevSep
+}
+
 // blockAfterCall: block b (or its unique predecessors chain) is entered on the true edge of a call to f.
 func (c *Ctx) blockAfterCall(b *ssa.BasicBlock, f *ssa.Function) bool {
 	for x := b; x != nil; {
@@ -618,6 +649,69 @@ func c12Stripped(c *Ctx, ns *numberScanner, rule string) {
 			}
 		}
 		c.R.Check(rule, fmt.Sprintf("separator-path#%d", n), c.P.InstrPos(pred.Instrs[len(pred.Instrs)-1]), ok, "after a separator the pending text range must restart behind it, so that `_` never reaches the token text; "+why+": `1_0` would carry the underscore into the number text")
+	}
+	if n == 0 {
+		// the arms join before the back edge: follow an accepted separator through one folded iteration and read what
+		// the range start has become when the loop comes round
+		var boolPhis []*ssa.Phi
+		for _, in := range h.Instrs {
+			if p, ok := in.(*ssa.Phi); ok && isBoolType(p.Type()) {
+				boolPhis = append(boolPhis, p)
+			}
+		}
+		if allow, prevSep := c.separatorStates(ns, ch, boolPhis); allow != nil && prevSep != nil && len(boolPhis) == 2 {
+			r := c.foldWith(f, 0, pinValue(ch, constant.MakeInt64('_')), pinValue(allow, constant.MakeBool(true)), pinValue(prevSep, constant.MakeBool(false)), pinLoopEntered(h))
+			var resolve func(v ssa.Value, depth int) []ssa.Value
+			resolve = func(v ssa.Value, depth int) []ssa.Value {
+				phi, isPhi := v.(*ssa.Phi)
+				if !isPhi || phi.Block() == h || depth > 4 {
+					return []ssa.Value{v}
+				}
+				var out []ssa.Value
+				for i, e := range phi.Edges {
+					pb := phi.Block().Preds[i]
+					if r.Reach[pb] && r.Edge[[2]int{pb.Index, phi.Block().Index}] {
+						out = append(out, resolve(e, depth+1)...)
+					}
+				}
+				return out
+			}
+			for i, pred := range h.Preds {
+				if !ns.FragLoop.Body[pred] || !r.Reach[pred] || !r.Edge[[2]int{pred.Index, h.Index}] {
+					continue
+				}
+				for _, v := range resolve(start.Edges[i], 0) {
+					n++
+					ok := false
+					why := "the new start is " + describeValue(v)
+					switch x := v.(type) {
+					case *ssa.BinOp:
+						ok = c.isAdvanceValue(x, func(y ssa.Value) bool {
+							u, isU := y.(*ssa.UnOp)
+							return isU && isScannerField(u.X, "pos")
+						})
+						// computed from the position before this iteration's advance
+						if ok {
+							if u, isU := x.X.(*ssa.UnOp); isU && isScannerField(u.X, "pos") {
+								if !pathExistsIn(r, h.Instrs[0], func(in ssa.Instruction) bool { return in == ssa.Instruction(u) }, c.isAdvanceStore) {
+									ok = false
+									why = "the new start adds the separator's size to a position that has already moved past it"
+								}
+							}
+						}
+					case *ssa.UnOp:
+						if isScannerField(x.X, "pos") {
+							// read after the advance over the separator on every folded path
+							ok = !pathExistsIn(r, h.Instrs[0], func(in ssa.Instruction) bool { return in == ssa.Instruction(x) }, c.isAdvanceStore)
+							if !ok {
+								why = "the new start is the position of the `_` itself (read before the scanner advances over it)"
+							}
+						}
+					}
+					c.R.Check(rule, fmt.Sprintf("separator-path#%d", n), c.P.InstrPos(pred.Instrs[len(pred.Instrs)-1]), ok, "after a separator the pending text range must restart behind it, so that `_` never reaches the token text; "+why+": `1_0` would carry the underscore into the number text")
+				}
+			}
+		}
 	}
 	if n == 0 {
 		c.R.Undecided(rule, "separator-path", c.P.Pos(f.Pos()), "no loop edge from the separator arm")
